@@ -235,7 +235,7 @@ func VerifC03SendToFx() {
 	rt.Assert(rt.StrEq(a.Sender, b.Sender), "sendtofx: sender")
 	rt.Assert(a.Amount.Equal(b.Amount), "sendtofx: amount")
 	rt.Assert(rt.StrEq(a.Receiver, b.Receiver), "sendtofx: receiver")
-	rt.Assert(rt.StrEq(a.TargetIbc, b.TargetIbc), "sendtofx: target")
+	rt.Assert(rt.BytesEq(verifHexBytes(a.TargetIbc), verifHexBytes(b.TargetIbc)), "sendtofx: target")
 }
 
 func verifBridgeCall(p string, nTok int) *MsgBridgeCallClaim {
@@ -267,7 +267,7 @@ func VerifC03BridgeCall() {
 	rt.Assert(rt.StrEq(a.Sender, b.Sender), "bridgecall: sender")
 	rt.Assert(rt.StrEq(a.Refund, b.Refund), "bridgecall: refund")
 	rt.Assert(rt.StrEq(a.To, b.To), "bridgecall: to")
-	rt.Assert(rt.StrEq(a.Data, b.Data), "bridgecall: data")
+	rt.Assert(rt.BytesEq(a.MustData(), b.MustData()), "bridgecall: data")
 	rt.Assert(a.Value.Equal(b.Value), "bridgecall: value")
 	rt.Assert(len(a.TokenContracts) == len(b.TokenContracts), "bridgecall: number of tokens")
 	if len(a.TokenContracts) == len(b.TokenContracts) {
@@ -276,8 +276,8 @@ func VerifC03BridgeCall() {
 			rt.Assert(a.Amounts[i].Equal(b.Amounts[i]), "bridgecall: token amount")
 		}
 	}
-	rt.Known("C03-bridgecall-hash-omits-memo", rt.Not(rt.StrEq(a.Memo, b.Memo)))
-	rt.Assert(rt.StrEq(a.Memo, b.Memo), "bridgecall: memo")
+	rt.Known("C03-bridgecall-hash-omits-memo", rt.Not(rt.BytesEq(a.MustMemo(), b.MustMemo())))
+	rt.Assert(rt.BytesEq(a.MustMemo(), b.MustMemo()), "bridgecall: memo")
 	rt.Known("C03-bridgecall-hash-omits-txorigin", rt.Not(rt.StrEq(a.TxOrigin, b.TxOrigin)))
 	rt.Assert(rt.StrEq(a.TxOrigin, b.TxOrigin), "bridgecall: tx origin")
 }
@@ -370,4 +370,35 @@ func VerifC03OracleSetUpdated() {
 			rt.Assert(rt.StrEq(a.Members[i].ExternalAddress, b.Members[i].ExternalAddress), "oraclesetupdated: member address")
 		}
 	}
+}
+
+func verifHexBytes(s string) []byte {
+	bz, err := hex.DecodeString(s)
+	if err != nil {
+		rt.Assert(false, "harness: field assumed to be hex does not decode")
+	}
+	return bz
+}
+
+// VerifC03BridgeCallSplit: the same question for bridge-call claims whose free-form fields are
+// long enough to embed a whole "/value/txOrigin/" run: (data, value, tx origin, memo) cannot be
+// re-split into a different valid claim with the same hash. Everything else is equal and concrete.
+func VerifC03BridgeCallSplit() {
+	verifSetup()
+	long := 2 * (1 + 1 + 1 + 42 + 1 + 1 + 1) // hex digits of: x / v / <42-byte origin> / y
+	mk := func(p string) *MsgBridgeCallClaim {
+		v := rt.BigInt(p + "value")
+		rt.Assume(rt.And(v.Sign() >= 0, v.Cmp(big.NewInt(10)) < 0))
+		return &MsgBridgeCallClaim{EventNonce: 7, BlockHeight: 9,
+			Sender: "0x0000000000000000000000000000000000000001", Refund: "0x0000000000000000000000000000000000000002", To: "0x0000000000000000000000000000000000000003",
+			TxOrigin: verifValidEthAddr(p + "origin"), Data: verifValidHex(p+"data", 2, long), Memo: verifValidHex(p+"memo", 2, long),
+			Value: sdkmath.NewIntFromBigInt(v), BridgerAddress: verifBridger(), ChainName: verifChain}
+	}
+	a, b := mk("a."), mk("b.")
+	rt.Assume(rt.BytesEq(a.ClaimHash(), b.ClaimHash()))
+	rt.Cover("same-hash")
+	rt.Assert(rt.BytesEq(a.MustData(), b.MustData()), "bridgecall split: data")
+	rt.Assert(a.Value.Equal(b.Value), "bridgecall split: value")
+	rt.Assert(rt.StrEq(a.TxOrigin, b.TxOrigin), "bridgecall split: tx origin")
+	rt.Assert(rt.BytesEq(a.MustMemo(), b.MustMemo()), "bridgecall split: memo")
 }
